@@ -137,6 +137,77 @@ CHECKS = {
               "Bounds: B0' != 1; rational parameter grids; 1-8 temperatures (12 thorough); 5-11 volumes; shapes (V) and "
               "(T,V); six pressures."),
         design="5/C20 and 11.2"),
+    "C08": dict(
+        text=("NAC.tla keeps Born charges and the dielectric tensor of the polar catalogue crystals in exact lattice "
+              "components, symmetrises arbitrary integer raw tensors by the exact space group (group average plus acoustic "
+              "sum rule) and defines K(n) = (n.Z_j)(n.Z_j')/(n.eps.n) as a rational matrix. TLC checks that K is homogeneous "
+              "of degree 0, symmetric, obeys the acoustic sum rule and is covariant under the space group; that the Wang "
+              "lattice sum is N at the zone centre (so 1/N cancels) and vanishes identically at every non-trivial "
+              "commensurate q (a character sum of the translation group modulo the supercell, decided by shift-invariance "
+              "of the phase histogram); and that zero or ASR-cancelled charges give K = 0. NACSwitch.tla fixes which "
+              "correction each (q, direction, call route) must get. Every dumped state is replayed on the real code (Wang "
+              "and Gonze-Lee, full and compact force constants, run_qpoints / DynamicalMatrixNAC.run / band-structure "
+              "routes, three unit factors); projected observations (rational K entries for n and 7n, no-op flags, switch "
+              "outcomes, phonopy's symmetrised tensors) are judged by TLC in NACTrace.tla and NACSwitch.tla."),
+        note=("Trusted: TLC, numpy, the residual-checked projection of real matrices to rationals, phonopy's uncorrected "
+              "matrix as reference (the property is relative to it). Bounds: 10 (quick) / 21 (thorough) configurations over "
+              "nacl/naclg (F), wz, tetab, cscl, tric and a spec-only P4 crystal, |det S| <= 9. Gonze-Lee 'unchanged' is "
+              "required at first-zone images of commensurate points only (truncated reciprocal sum is not periodic "
+              "outside). Not exercised: GL at non-commensurate q against an independent Ewald sum, with_full_terms."),
+        design="5/C08 and 11.2"),
+    "C11": dict(
+        text=("TLC decides, for every ordered 4-tuple of vertex frequencies on 4 (quick) / 5 (thorough) levels plus an "
+              "irregular level set, every grid frequency and both weight functions, that the code's 24x4 closed forms, "
+              "network sort and case split (Tetrahedron.tla, exact rationals in TetRat.tla) equal the definition of the "
+              "linear tetrahedron weights, stated independently as geometric integrals (region {eps <= omega} cut into "
+              "simplices, volumes as determinants, co-area formula for the density); and range [0,1/4] per vertex, sum over "
+              "vertices = n(omega) / g(omega), monotonicity, continuity, J' = I. Every enumerated input is replayed on the "
+              "compiled, the vectorised compiled and the Python kernel at 1e-13 and TLC judges their logged values "
+              "(TetrahedronTrace). TetraMesh.tla checks the relative-address tables against the Kuhn-star contract for all "
+              "four main diagonals, neighbour lookup through wrap-around and the mapping table, per-grid-point weights, "
+              "tetrahedron_method_dos with projection coefficients and normalisation, on values logged from the real "
+              "TetrahedronMesh. DosApi.tla judges API sessions on spring-model crystals (full and reduced meshes, "
+              "tetrahedron and smearing, atom/xyz/direction projections): non-negativity, cumulative weight 3n at the top, "
+              "density = derivative of cumulative weight, additivity of projections."),
+        note=("Trusted: TLC, float->rational projection (limit_denominator, residual <= 1e-12), numpy realisation of the "
+              "definition (validated against TLC's exact values). API level works on real-valued frequencies (binary64 "
+              "comparisons judged by TLC as classes). Bounds: vertex values {0,2,4,6(,8)}, meshes <= 12 points, 6/13 "
+              "crystals. Smearing normalisation is a quadrature statement (interpretation side)."),
+        design="5/C11 and 11.2"),
+    "C12": dict(
+        text=("GroupVelocity.tla builds the supercell and the shortest-vector sets by definition and the Wang term K(q) and "
+              "dK/dq as exact rationals; TLC checks that the quotient rule transcribed from get_derivative_nac/_d_nac equals "
+              "the derivative by definition, the Euler identity n.grad K = 0, reversal symmetry of the shortest-vector sets "
+              "and the hypotheses. From the dumped data the harness assembles the lattice Fourier sum and its term-wise "
+              "derivative and compares with phonopy's D(q), DerivativeOfDynamicalMatrix (compiled and Python, plain and "
+              "Wang, full and compact) and the reported group velocities (as <e|dD|e> factor^2/2f, traces over degenerate "
+              "sets, and against the 4th-order finite-difference gradient of the frequencies phonopy itself reports, in "
+              "analytic, finite-difference and Gonze-Lee mode). GVDegeneracy.tla model-checks the degenerate-set and cutoff "
+              "bookkeeping and judges recorded outputs. Gruneisen.tla gives the exact closed form for force constants "
+              "scaling as (V/V0)^-k with unequal strains; it is replayed on mesh and band runs, incl. reduced vs full mesh."),
+        note=("Trusted: TLC, numpy eigh/exp, the oracle's integer force constants. Bounds: unit cell = primitive cell, "
+              "supercells keeping the point group, 9 crystals, 5-12 rational q per configuration incl. one outside the "
+              "first cell; non-degenerate = gap > 5e-3 of bandwidth; Grueneisen exponents k = 1..4. Not exercised: group "
+              "velocity at Gamma along a NAC direction."),
+        design="5/C12 and 11.2"),
+    "C13": dict(
+        text=("KernelsOMP.tla models every '#pragma omp parallel for' of c/ as threads claiming iterations and executing "
+              "their memory accesses; the per-iteration access lists and sharing classes are regenerated on every run from "
+              "clang's AST of /repo/c (private lists, loop-local and static declarations, assigned l-values, callee writes, "
+              "concrete index arithmetic on small scenarios). TLC checks NoDataRace, NoConflictingIterations, "
+              "ReadsFromSequential, NoUndefinedPrivateRead, ResultIndependentOfSchedule and NoOutOfBounds over all "
+              "interleavings. KernelRuns.tla defines the run matrix (build x OMP_NUM_THREADS x repetition) and the contracts "
+              "of the 19 exported kernels; every argument tuple recorded from the Python layer's own calls, as recorded and "
+              "with randomised free data, is replayed at the phonopy._phonopy boundary on the omp, serial and ASan/UBSan "
+              "builds, and TLC judges reference agreement, bitwise thread/repetition/flag independence, cross-build "
+              "agreement, guard zones, const inputs, sanitizer reports and the glue's pointer-cast/dtype table. "
+              "KernelExact.tla has TLC compute the exact integer result of transpose_compact_fc and distribute_fc2 from the "
+              "definition, replayed on the real kernels."),
+        note=("Trusted: TLC, clang's AST, numpy, the stand-in nanobind header, the reference transcriptions in "
+              "harness/c13_refs.py. Bounds: race model with 2 (thorough 3) threads, one small scenario per site, abstract "
+              "float data; kernels on 4 crystals, dense/sparse, full/compact, no/Wang/Gonze NAC; tolerances 1e-11 relative. "
+              "Memory safety is monitored (guard zones, sanitizer build), not proved."),
+        design="5/C13 and 11.2"),
 }
 
 NOT_BUILT = "check under construction in this round; not yet claimed"
